@@ -994,3 +994,25 @@ TARGETS.append(
              ('_s.reverse_complement()', {'_s': 'opt list Z'}, '(option_map (revcomp tbl) {_s})', 'opt list Z'),
              ('pair__(_s, _z)', {'_s': 'opt list Z', '_z': 'Z'},
               '(match {_s} with Some s__ => Some (s__, {_z}) | None => None end)', 'opt:AttributeError:cdnares')]))
+
+# ---------------------------------------------------------------------------------------------- C18 source-set order
+# (25) aa/VariantPeptideLabel.py VariantSourceSet.__gt__ / __ge__ / __lt__ / __le__ (the order that decides the database
+#      of a peptide in splitFasta)                                                        vs Split.src_gt (+ its negations)
+#      Trusted: `self == other` on the set subclass is Split.set_eq; self.to_int() is Split.to_int (KeyError = Err EKey);
+#      zip is List.combine.
+VSS = dict(out='Py_VariantSourceSet', file='moPepGen/aa/VariantPeptideLabel.py', cls='VariantSourceSet',
+           imports=['Gen.HeaderCfg', 'Model.Header', 'Model.Filter', 'Model.Split'],
+           args=[('lv', 'levels'), ('A', 'list str'), ('B', 'list str')],
+           types={'pairZ': '(Z * Z)', 'srcset': '(list str)'}, pair_types={'pairZ': ('Z', 'Z')},
+           params={'other': ('B', 'srcset')},
+           ret_ty='bool', res_ty='res bool', ok='(Ok {})', stub='Err EIndex', errors={}, raises=[],
+           patterns=[('self == other', {}, '(set_eq A B)', 'bool'),
+                     ('self.to_int()', {}, '(to_int lv A)', 'res list Z'),
+                     ('other.to_int()', {}, '(to_int lv B)', 'res list Z'),
+                     ('zip(_a, _b)', {'_a': 'list Z', '_b': 'list Z'}, '(combine {_a} {_b})', 'list pairZ'),
+                     ('self > other', {}, '(src_gt lv A B)', 'res bool'),
+                     ('self >= other', {}, '(py_src_ge lv A B)', 'res bool')])
+TARGETS += [dict(VSS, func='__gt__', coq_name='py_src_gt'),
+            dict(VSS, func='__ge__', coq_name='py_src_ge'),
+            dict(VSS, func='__lt__', coq_name='py_src_lt'),
+            dict(VSS, func='__le__', coq_name='py_src_le')]
